@@ -613,6 +613,11 @@ class Analysis:
             return self.ev(b, st, nid)
         x = self.ev(a, st, nid)
         y = self.ev(b, st, nid)
+        if op == '&&':
+            # a verdict stored in a variable: bool ok = A && B;  (tested or returned later)
+            return T.mk('conj', x, y)
+        if op == '||':
+            return T.mk('disj', x, y)
         if op in NEG:
             return self.rel(op, x, y)
         if op == '-' and e.get('t') in ('unsigned long', 'unsigned int'):
@@ -1033,14 +1038,16 @@ class Analysis:
             c = self.ev(n.e, st, nid)
             self.event(nid, ('branch', c, n.line))
             ft, ff = self.truth(c, True), self.truth(c, False)
+            fts = self.conj_facts(ft)
             loops = set(L for L in self.ix_loops(c) if n.id in self.loop_nodes.get(L, ()))
             if loops:
                 tag = tuple(sorted(loops))
-                ft = T.mk('all', tag, self.strip_ix(ft, loops))
+                fts = set(T.mk('all', tag, self.strip_ix(x, loops)) for x in fts)
                 ff = T.mk('all', tag, self.strip_ix(ff, loops))
+            ffs = self.conj_facts(ff) if not loops else {ff}
             s2 = st.copy()
-            st.facts = st.facts | (self.conj_facts(ft) if not loops else {ft})
-            s2.facts = s2.facts | {ff}
+            st.facts = st.facts | fts
+            s2.facts = s2.facts | ffs
             cn = T.node(c)
             if cn[0] == 'bool':
                 return [st if cn[1] else None, s2 if not cn[1] else None]
@@ -1057,6 +1064,11 @@ class Analysis:
                 if v2 is None:
                     s2.facts = s2.facts | {self.rel('==', c, vt)}
                 outs.append(s2)
+            # a case label also excludes the other (distinct constant) labels
+            for k2, (v, v2) in enumerate(n.meta['cases']):
+                if v2 is None and T.is_int(allv[k2]):
+                    others = set(self.rel('!=', c, o) for j2, o in enumerate(allv) if j2 != k2 and T.is_int(o) and T.node(o)[1] != T.node(allv[k2])[1])
+                    outs[k2].facts = outs[k2].facts | others
             s3 = st.copy()
             s3.facts = s3.facts | {self.rel('!=', c, vt) for vt in allv}
             outs.append(s3)
@@ -1224,14 +1236,80 @@ class Analysis:
                 return T.mk('conj', va, vb)
         return None
 
-    def conj_facts(self, f):
-        """truthy(a && b) holds exactly when both hold"""
+    def conj_facts(self, f, full=False):
+        """everything that follows from f by unfolding stored verdicts: truthy(a && b) gives both,
+        falsy(a || b) gives both negations, falsy(a && b) with a known gives not b, truthy(a || b)
+        with not a known gives b, (c ? a : b) gives the two implications"""
         T = self.T
-        n = T.node(f)
-        if n[0] == 'truthy' and T.op(n[1]) == 'conj':
-            c = T.node(n[1])
-            return self.conj_facts(self.truth(c[1], True)) | self.conj_facts(self.truth(c[2], True))
-        return {f}
+        S = {f}
+        work = [f]
+        pending = []
+        while work or pending:
+            if not work:
+                # retry the conditional unfoldings with what is known now
+                again = False
+                for g in list(pending):
+                    r = self.unfold_cond(g, S)
+                    if r:
+                        pending.remove(g)
+                        for x in r:
+                            if x not in S:
+                                S.add(x)
+                                work.append(x)
+                                again = True
+                if not again:
+                    break
+                continue
+            g = work.pop()
+            n = T.node(g)
+            new = ()
+            if n[0] == 'truthy' and T.op(n[1]) == 'conj':
+                c = T.node(n[1])
+                new = (self.truth(c[1], True), self.truth(c[2], True))
+            elif n[0] == 'falsy' and T.op(n[1]) == 'disj':
+                c = T.node(n[1])
+                new = (self.truth(c[1], False), self.truth(c[2], False))
+            elif n[0] == 'truthy' and T.op(n[1]) == 'ite':
+                c = T.node(n[1])
+                ct, cf = self.truth(c[1], True), self.truth(c[1], False)
+                if T.op(ct) != 'bool':
+                    new = (T.mk('if', ct, self.truth(c[2], True)), T.mk('if', cf, self.truth(c[3], True)))
+            elif (n[0] == 'falsy' and T.op(n[1]) == 'conj') or (n[0] == 'truthy' and T.op(n[1]) == 'disj'):
+                pending.append(g)
+            for x in new:
+                if x not in S:
+                    S.add(x)
+                    work.append(x)
+        if full:
+            return S
+        # the compound facts themselves carry no further information once unfolded
+        out = set()
+        for g in S:
+            n = T.node(g)
+            if n[0] in ('truthy', 'falsy') and T.op(n[1]) in ('conj', 'disj') and g != f:
+                continue
+            if n[0] == 'bool':
+                continue
+            out.add(g)
+        if len(out) > 1:
+            out.discard(f) if (T.node(f)[0] in ('truthy', 'falsy') and T.op(T.node(f)[1]) in ('conj', 'disj', 'ite')) else None
+        return out
+
+    def unfold_cond(self, g, S):
+        T = self.T
+        n = T.node(g)
+        c = T.node(n[1])
+        if n[0] == 'falsy':      # not (a && b)
+            for x, y in ((c[1], c[2]), (c[2], c[1])):
+                tx = self.truth(x, True)
+                if tx in S or T.node(tx) == ('bool', True):
+                    return [self.truth(y, False)]
+        else:                    # a || b
+            for x, y in ((c[1], c[2]), (c[2], c[1])):
+                fx = self.truth(x, False)
+                if fx in S or T.node(fx) == ('bool', True):
+                    return [self.truth(y, True)]
+        return None
 
     def run(self, max_passes):
         """phase 1: environments.  Loop heads get a phi for every location written inside the
@@ -1475,6 +1553,17 @@ class Analysis:
         T = self.T
         common = A & B
         ra, rb = A - common, B - common
+        # an implication c -> F of one side also holds on the other side when that side refutes c
+        # (vacuously) or establishes F
+        keep = set()
+        for mine, other in ((ra, B), (rb, A)):
+            for f in mine:
+                n = T.node(f)
+                if n[0] == 'if' and (self.neg_fact(n[1]) in other or n[2] in other):
+                    keep.add(f)
+        if keep:
+            common = common | keep
+            ra, rb = ra - keep, rb - keep
         if not ra or not rb or len(ra) > 10 or len(rb) > 10:
             return common
         extra = set()
@@ -1705,7 +1794,7 @@ class Analysis:
                     out.append((n, st.facts))
                 continue
             tv = self.truth(val, True)
-            if self.neg_fact(tv) in st.facts:
+            if any(self.neg_fact(g) in st.facts for g in self.conj_facts(tv, full=True)):
                 continue          # the value returned is known to be false on this path
             out.append((n, st.facts | self.conj_facts(tv)))
         return out
